@@ -539,8 +539,21 @@ func (g *c20Gen) doSubmit(d *c20DID, rq *c20Req, advance func()) {
 		d.create.ID = rq.ID
 		d.create.Key = rq.Key
 	}
+	var pre c20View
+	if rq.Type != operation.TypeCreate {
+		pre = w.resolve(d.shortDID())
+	}
 	res, err := w.submit(rq)
 	g.nSubmit++
+	// (iv) the decorator, on the implementation alone: what ResolveDocument showed just before decides
+	if rq.Type != operation.TypeCreate && pre.Err == "" {
+		if (!pre.Found || pre.Deact) && err == nil {
+			g.violation("non_create_on_unknown_or_deactivated_did_is_refused", fmt.Sprintf("request %d (%s of DID %d) accepted while the DID resolved as %+v", rq.ID, rq.Label, d.idx, pre))
+		}
+		if pre.Found && !pre.Deact && rq.IntakeOK && err != nil {
+			g.violation("well_formed_operation_on_active_did_is_accepted", fmt.Sprintf("request %d (%s of DID %d) refused: %v", rq.ID, rq.Label, d.idx, err))
+		}
+	}
 	obs := []string{"(OAccept " + emit.Bool(err == nil) + ")"}
 	label := map[string]interface{}{"submit": rq.Label, "did": d.idx, "id": rq.ID, "accepted": err == nil, "request": string(rq.Request), "clock": w.clk.now}
 	if err != nil {
